@@ -209,24 +209,22 @@ fn eval_tree(rt: &tokio::runtime::Runtime, root: &Path, t: &Tree) -> Result<Eval
 	for start in 1..=t.depth {
 		ev.evaluations += 1;
 		let got = rt.block_on(project_origins::origins(&chain[start]));
-		let mut levels = vec![];
+		let levels: Vec<usize> = (0..=t.depth).filter(|l| got.contains(&chain[*l])).collect();
 		for lvl in 0..=t.depth {
 			let want = lvl >= 1 && lvl <= start && level_is_origin(lvl);
 			let has = got.contains(&chain[lvl]);
-			if has {
-				levels.push(lvl);
-			}
 			if want && !has {
 				let m = at(lvl).find(|p| model_is_marker(&p.name, p.dir)).map(pname).unwrap_or_default();
 				ev.violations.push((
 					format!("C20/origins/missed/{m}"),
-					format!("level {lvl} holds {m} and is an ancestor-or-self of the start (level {start}) but origins() returned levels {levels:?} only / {} paths", got.len()),
+					format!("level {lvl} holds {m} and is an ancestor-or-self of the start (level {start}) but origins() returned only the levels {levels:?} of the chain ({} paths in all)", got.len()),
 				));
 			}
 			if has && !want {
 				let why = if lvl > start {
 					"below-start".to_string()
-				} else if let Some(p) = at(lvl).next() {
+				} else if let Some(p) = at(lvl).find(|p| model_is_marker(&p.name, !p.dir)).or(at(lvl).next()) {
+					// blame a marker name of the wrong node type first, then a look-alike
 					format!("not-a-marker/{}", pname(p))
 				} else {
 					"unmarked-directory".to_string()
